@@ -2,10 +2,13 @@
 
 Proof: lean/Reduino/Props/C02.lean (Lang/Types.lean, Lang/TypesTree.lean): for every type-stable program and EVERY execution path the
 C++ store holds Python's values; inferred type = compiler's type on tame expressions; function result = join of returns; witnesses.
+Expressions include the builtin calls abs / min / max / int() / float() / bool(): typed by `_BUILTIN_CALL_RETURN_TYPES` (re-extracted
+every run into Gen/Types.lean, obligations `gen_builtin_*` in GenOb/Types.lean), evaluated in C++ as the Arduino macros / static_casts.
 Ties: T — declared C++ types in the emission vs the model's block-structured `declareT`; S_py — model Python store vs CPython on
 straight-line programs; S_c — model C++ store vs values printed by the compiled firmware; mergeReturn vs emitted return types.
 Oracle E: values printed by the compiled firmware vs CPython for block-structured scripts mixing bool/int/float/str in every
-order (top level, branches, loops), classified by the model's TypeStable verdict."""
+order (top level, branches, loops), classified by the model's TypeStable verdict; a dedicated stream of builtin calls (tame shapes must
+agree; a float operand to abs/min/max must come out as K02e `types:builtin-float-result` and nothing else)."""
 from __future__ import annotations
 
 import itertools
@@ -22,7 +25,9 @@ TRUSTED = [
     "Lean 4.33 kernel; axioms ⊆ {propext, Classical.choice, Quot.sound}",
     "exact arithmetic (ordered field) in the theorems; float32/float64 rounding is seen only through the ties (dyadic constants, 1e-5 relative tolerance on firmware floats)",
     "mock core + host g++ (32-bit int): AVR's 16-bit int range is a separate side condition",
-    "function calls are not in the expression model: parameter/return typing is checked by the mergeReturn tie and the end-to-end oracle only",
+    "builtin calls abs/min/max/int()/float()/bool() ARE in the expression model (mock core's macros = Arduino.h's; `_BUILTIN_CALL_RETURN_TYPES` regenerated, gen_builtin_*); "
+    "calls of user-defined helper functions, lists/len() and str() are not: parameter/return typing is checked by the mergeReturn tie and the end-to-end oracle only",
+    "int()/float() of a str operand and min/max of two strs evaluate to `none` in the model (numeral parsing / string ordering not modelled; never generated)",
 ]
 DECL_RE = re.compile(r"^\s*(int|float|bool|String)\s+(\w+)\s*(=|;)", re.M)
 
@@ -89,9 +94,15 @@ def gen_programs(ctx):
     progs = []
     for i in range(ctx.n(120, 1500)):
         hz = rng.choice(tygen.HAZARDS) if rng.random() < 0.4 else None
-        straight = rng.random() < 0.35 and hz != "builtin-float-result"      # builtin calls are outside the expression model: no store ties
+        straight = rng.random() < 0.35
         g = tygen.TyGen(rng, hazard=hz, straight=straight)
         progs.append((g.program(), hz, straight))
+    # builtin calls: a dedicated stream — tame shapes (TypeStable in the model) and, every third program, a float operand to abs/min/max (K02e);
+    # half of them straight-line, so that the model's Python and C++ stores are tied to CPython and the firmware
+    for i in range(ctx.n(36, 400)):
+        hz = "builtin-float-result" if i % 3 == 0 else None
+        g = tygen.TyGen(rng, hazard=hz, straight=(i % 2 == 0), builtins=True)
+        progs.append((g.program(), hz, i % 2 == 0))
     # exhaustive: every order of up to three differently-typed assignments to one name, at top level / in a branch / in a loop
     vals = {"int": ("i", 2), "float": ("f", 2.5), "bool": ("b", True)}
     for n in (2, 3):
@@ -247,7 +258,7 @@ def function_hoists(ctx):
 
 
 def run(ctx: Ctx) -> int:
-    ctx.prove(["Reduino.Props.C02"])
+    ctx.prove(["Reduino.Props.C02", "Reduino.GenOb.Types"])
     common.fresh_import()
     rng = ctx.rng
     progs = gen_programs(ctx)
@@ -263,8 +274,11 @@ def run(ctx: Ctx) -> int:
     for k, ((p, hz, straight), src, (cpp, exc)) in enumerate(zip(progs, srcs, outs)):
         mdecl, mrun = fields(model[2 * k]), fields(model[2 * k + 1])
         replay = {"script": src, "hazard": hz}
-        stable = mdecl.get("stable") == "T" and hz != "builtin-float-result"     # (the model sees the call as an int placeholder)
+        stable = mdecl.get("stable") == "T"
         ctx.count(f"program:{'stable' if stable else 'unstable'}:{(hz or 'none').split(':')[0]}")
+        for fn in ("abs", "min", "max", "int", "float", "bool"):
+            if re.search(r"\b" + fn + r"\(", src):
+                ctx.count("builtin-call:" + fn + (":straight" if straight else ""))
         ctx.case(src, nontrivial=True, sample={"script": src, "model": model[2 * k][:200]} if len(ctx.cov["samples"]) < 2 else None)
         if hz is None and not stable:
             ctx.tie_diff("generator invariant (hazard-free programs are TypeStable in the model)", replay, model[2 * k], "")
@@ -312,6 +326,8 @@ def run(ctx: Ctx) -> int:
                     ctx.tie_diff("tie S_py (model Python store vs CPython)", replay, f"{n}={mpy[n]!r}", f"{n}={pyv[i]!r}")
                 if mc is not None and final_fw and n in mc and not same(mc[n], fwv[i]):
                     ctx.tie_diff("tie S_c (model C++ store vs compiled firmware)", replay, f"{n}={mc[n]!r}", f"{n}={fwv[i]!r}")
+        if hz == "builtin-float-result":
+            ctx.count("builtin-float-result:" + ("firmware-differs" if not agree else "agrees (the int operand wins or the value is integral)"))
         if not agree:
             bad = next(((a, b) for a, b in zip(pyv, fwv) if not same(a, b)), (len(pyv), len(fwv)))
             what = f"firmware prints {bad[1]!r} where Python prints {bad[0]!r}"
@@ -339,7 +355,9 @@ def run(ctx: Ctx) -> int:
         real = "reject" if cpp is None else (re.search(r"^(\w+) pick\(", cpp, re.M) or [None, "?"])[1]
         if real != m:
             ctx.tie_diff("tie mergeReturn (model vs emitted return type)", {"script": src}, m, real)
-    ctx.cov["rule"] = ("random block-structured scripts over bool/int/float/str names (40% with one injected re-typing hazard, 35% straight-line), plus every order of 2-3 "
+    ctx.cov["rule"] = ("random block-structured scripts over bool/int/float/str names with builtin calls abs/min/max/int/float/bool among the expressions "
+                       "(40% with one injected re-typing hazard, 35% straight-line), a stream where half of the compound expressions are builtin calls "
+                       "(every third program with a float operand to abs/min/max), plus every order of 2-3 "
                        "differently-typed assignments to one name at top level / in a branch / in a loop, plus every return-type combination up to 3 returns; "
                        "each compiled and run for one pass against CPython")
     return ctx.finish(TRUSTED, search=None)
